@@ -116,8 +116,11 @@ def detour(
       raise TypeError(
           f'Detour destination {dest!r} is not a class or a function.')
 
+  # NOTE: entering may fail (e.g. for a class whose `__new__` cannot be set), in
+  # which case there is no scope to leave.
+  scope_mappings = _global_detour_context.enter_scope(mappings)
   try:
-    yield _global_detour_context.enter_scope(mappings)
+    yield scope_mappings
   finally:
     _global_detour_context.leave_scope()
 
@@ -230,8 +233,9 @@ class _DetourContext:
 
     for src, dest in new_mappings:
       if src not in self._original_new:
-        self._original_new[src] = src.__new__
+        original_new = src.__new__
         setattr(src, '__new__', _maybe_detoured_new)
+        self._original_new[src] = original_new
       cur_mappings[src] = dest
     self._detour_stack.append(cur_mappings)
     return cur_mappings
